@@ -42,16 +42,20 @@ ApplyAddComment(S, a, wf) ==
      !.timeline = Append(S.timeline, [kind |-> "comment", op |-> i, au |-> a, hist |-> <<i>>, a1 |-> <<>>, a2 |-> <<>>])]
 
 (* target: position of the targeted operation, 0 = an id that designates no operation of this bug *)
-ApplyEditComment(S, a, target, wf) ==
+(* same: the edit repeats the text the comment already shows (it may still change the files): one more entry in the edit
+   history all the same *)
+ApplyEditComment(S, a, target, wf, same) ==
   LET i == S.n + 1
       hit == {j \in DOMAIN S.timeline : S.timeline[j].op = target} IN
   IF hit = {} \/ \A j \in hit : S.timeline[j].kind \notin {"create", "comment"}
   THEN Bump(S)                                         \* unknown or non-comment target: changes nothing
-  ELSE LET j == CHOOSE x \in hit : TRUE IN
+  ELSE LET j == CHOOSE x \in hit : TRUE
+           cur == (CHOOSE c \in DOMAIN S.comments : S.comments[c].op = target)
+           m == IF same THEN S.comments[cur].msg ELSE i IN
        [Bump(S) EXCEPT !.actors = AddOnce(S.actors, a),
-          !.timeline[j].hist = Append(S.timeline[j].hist, i),
+          !.timeline[j].hist = Append(S.timeline[j].hist, m),
           !.comments = [c \in DOMAIN S.comments |->
-                          IF S.comments[c].op = target THEN [S.comments[c] EXCEPT !.msg = i, !.files = IF wf THEN i ELSE 0]
+                          IF S.comments[c].op = target THEN [S.comments[c] EXCEPT !.msg = m, !.files = IF wf THEN i ELSE 0]
                           ELSE S.comments[c]]]      \* text and files are those of the latest edit
 
 ApplySetTitle(S, a) ==
@@ -102,7 +106,8 @@ Target(S, t) == CASE t = "create" -> 1 [] t = "last" -> S.n [] OTHER -> 0
 Apply(S, c) ==
   CASE c.k = "create"   -> ApplyCreate(S, c.a, c.wf)
     [] c.k = "comment"  -> ApplyAddComment(S, c.a, c.wf)
-    [] c.k = "edit"     -> ApplyEditComment(S, c.a, Target(S, c.t), c.wf)
+    [] c.k = "edit"     -> ApplyEditComment(S, c.a, Target(S, c.t), c.wf, FALSE)
+    [] c.k = "editsame" -> ApplyEditComment(S, c.a, Target(S, c.t), c.wf, TRUE)
     [] c.k = "title"    -> ApplySetTitle(S, c.a)
     [] c.k = "status"   -> ApplySetStatus(S, c.a, c.s)
     [] c.k = "labelf"   -> ApplyLabelChange(S, c.a, c.add, c.rem)
